@@ -108,7 +108,7 @@ fn enc_seek() {
             l.chunk_cache = Cursor::new(vec![0u8; cl]);
             l.chunk_cache.set_position(v_u64("cp", 0));
         }
-        let want = reference.seek(sf).ok();
+        let want = reference.seek(sf).ok().filter(|w| *w <= big_l);
         let got = l.seek(sf);
         match (want, got) {
             (Some(w), Ok(g)) if w == g => {}
@@ -198,6 +198,25 @@ fn stream_with_remaining(ccn: u64, rem: u64, exact_last: bool) -> (Vec<u8>, Vec<
     (s, plain)
 }
 
+/// Read + Seek source whose FIRST read after construction hands out at most 7 bytes
+struct Throttle7 {
+    c: Cursor<Vec<u8>>,
+    reads: u32,
+    on: bool,
+}
+impl Read for Throttle7 {
+    fn read(&mut self, buf: &mut [u8]) -> std::io::Result<usize> {
+        self.reads += 1;
+        let lim = if self.on && self.reads == 1 { buf.len().min(7) } else { buf.len() };
+        self.c.read(&mut buf[..lim])
+    }
+}
+impl Seek for Throttle7 {
+    fn seek(&mut self, p: SeekFrom) -> std::io::Result<u64> {
+        self.c.seek(p)
+    }
+}
+
 #[test]
 fn enc_load() {
     let q = v_u64("q", 0);
@@ -215,8 +234,8 @@ fn enc_load() {
             }
         }
         let total = s.len() as u64;
-        let mut l = EncryptionLayerInternal::new(Box::new(Cursor::new(s)), &reader_cfg(false)).unwrap();
-        l.inner.set_position(ccn * cts());
+        let mut l = EncryptionLayerInternal::new(Box::new(Throttle7 { c: Cursor::new(s), reads: 0, on: v_u64("short", 0) == 1 }), &reader_cfg(false)).unwrap();
+        l.inner.c.set_position(ccn * cts());
         l.current_chunk_number = ccn as u32;
         l.chunk_cache = Cursor::new(vec![7u8; 3]);
         l.chunk_cache.set_position(2);
@@ -247,8 +266,8 @@ fn enc_load() {
         if l.chunk_cache.position() != 0 {
             return Some(format!("cache cursor at {} after a load", l.chunk_cache.position()));
         }
-        if l.inner.position() != ccn * cts() + got {
-            return Some(format!("inner stream at {}, expected {}", l.inner.position(), ccn * cts() + got));
+        if l.inner.c.position() != ccn * cts() + got {
+            return Some(format!("inner stream at {}, expected {}", l.inner.c.position(), ccn * cts() + got));
         }
         None
     }));
@@ -264,8 +283,8 @@ fn enc_load_unauth() {
     let r = catch_unwind(AssertUnwindSafe(|| -> Option<String> {
         let (s, plain) = stream_with_remaining(ccn, rem.min(2 * cts()), false);
         let total = s.len() as u64;
-        let mut l = EncryptionLayerInternal::new(Box::new(Cursor::new(s)), &reader_cfg(true)).unwrap();
-        l.inner.set_position(ccn * cts());
+        let mut l = EncryptionLayerInternal::new(Box::new(Throttle7 { c: Cursor::new(s), reads: 0, on: v_u64("short", 0) == 1 }), &reader_cfg(true)).unwrap();
+        l.inner.c.set_position(ccn * cts());
         l.current_chunk_number = ccn as u32;
         l.chunk_cache = Cursor::new(vec![7u8; 3]);
         l.chunk_cache.set_position(2);
@@ -291,8 +310,8 @@ fn enc_load_unauth() {
             return Some(format!("cache cursor at {} after a load", l.chunk_cache.position()));
         }
         let want = ccn * cts() + data + (here - data).min(16);
-        if l.inner.position() != want {
-            return Some(format!("inner stream at {}, expected {want}", l.inner.position()));
+        if l.inner.c.position() != want {
+            return Some(format!("inner stream at {}, expected {want}", l.inner.c.position()));
         }
         None
     }));
